@@ -100,7 +100,8 @@ class Ref:
             if not self.pf:
                 # a disabled parser function is re-emitted as a call: its first argument sits in the
                 # name position and is expanded like a name (per the current mode), the others stay raw
-                return "{{#if:" + self.ex(n[1], frame, expand_all) + "|" + self.raw(n[2], frame) + "|" + \
+                # (blanks around it are dropped with the name's: documented deviation, see the dedicated probe below)
+                return "{{#if:" + self.ex(n[1], frame, expand_all).strip() + "|" + self.raw(n[2], frame) + "|" + \
                     self.raw(n[3], frame) + "}}"
             c = self.ex(n[1], frame, expand_all)
             if "{{" in c:
@@ -296,6 +297,32 @@ if "Template loop detected" in r3:
          f"{{{{a|{{{{#if:x|{{{{a|y}}}}|n}}}}}}}} with expand_parserfns=False gives {r3!r}",
          {"page": "{{a|{{#if:x|{{a|y}}|n}}}}", "expand_parserfns": False}, "false-loop-detection")
 
+# template_fn is called exactly once per expanded call, also for calls inside parser-function arguments that are
+# looked at more than once (#switch fall-through labels / defaults), and sees names like "0" as strings
+ctx.add_page("Template:id0", 10, "<{{{0|none}}}>")
+for txt, want_calls in (("{{#switch:q|a=1|{{a|s}}}}", [("a", {1: "s"})]), ("{{#switch:q|a=1|b|{{a|t}}}}", [("a", {1: "t"})]),
+                        ("{{#switch:q|{{a|u}}=1|#default={{a|v}}}}", [("a", {1: "u"}), ("a", {1: "v"})]),
+                        ("{{#if:{{a|w}}|{{a|x}}|{{a|y}}}}", [("a", {1: "w"}), ("a", {1: "x"})]),
+                        ("{{id0|0=z}}", [("id0", {"0": "z"})]), ("{{id0|00=z|1=y}}", [("id0", {"00": "z", 1: "y"})])):
+    calls = []
+    ctx.start_page("Tt")
+    with quiet_stdout():
+        out = ctx.expand(txt, template_fn=lambda n, ht: calls.append((n, {k: ctx._finalize_expand(v) for k, v in ht.items()})))
+    evaluations += 1
+    if calls != want_calls:
+        fail("core:Wtp.expand#template_fn-called-once-per-expanded-call-with-final-arguments",
+             f"{txt!r}: calls {calls} want {want_calls}", {"page": txt}, "hook-calls")
+    if txt == "{{id0|0=z}}" and out != "<z>":
+        fail("core:Wtp.expand#equals-reference-selective-expansion", f"{txt!r} -> {out!r} want '<z>'", {"page": txt})
+# a disabled parser function is re-emitted with its first argument as written
+for txt in ("{{#if: x |a|b}}", "{{#if:x |a}}", "{{lc: X }}"):
+    ctx.start_page("Tt")
+    with quiet_stdout():
+        r = ctx.expand(txt, expand_parserfns=False)
+    evaluations += 1
+    if r != txt:
+        fail("core:Wtp.expand#disabled-parserfn-first-argument-as-written", f"{txt!r} -> {r!r}",
+             {"page": txt, "expand_parserfns": False}, "first-arg-blanks-dropped")
 # names written with blanks or a subst: prefix are re-emitted as written when the call is not selected
 for txt in ("{{ a |x}}", "{{safesubst:a|x}}", "{{subst:b}}", "{{a<noinclude/>|x}}", "{{ b }}"):
     ctx.start_page("Tt")
